@@ -250,6 +250,12 @@ def specs_for(stage):
         for n in (1, 2):
             for s in gen_dag.base_specs(n):
                 yield from gen_dag.combo_decorations(s)
+    elif stage == "N2-special-names":
+        # valid but unusual parameter names: a leading underscore, a trailing digit, one name a prefix of the other
+        for a, b in (("_x", "y"), ("x", "x1"), ("_x", "_x_")):
+            yield {"funcs": [{"name": "f0", "params": [a, b], "outs": ["o0"]}]}
+            yield {"funcs": [{"name": "f0", "params": [a], "outs": ["o0"]}, {"name": "f1", "params": ["o0", b], "outs": ["o1"]}]}
+            yield {"funcs": [{"name": "f0", "params": [a, b], "outs": ["o0", "p0"]}, {"name": "f1", "params": ["p0", a], "outs": ["o1"]}]}
     elif stage == "N3":
         yield from gen_dag.base_specs(3)
     elif stage == "N3-shared-none":
@@ -268,9 +274,9 @@ def specs_for(stage):
         yield from gen_dag.base_specs(4, max_params=2, nouts=(1,), min_params=1)
 
 
-STAGES = {"quick": ["N1", "N2", "N2-three-output-producer", "N2-decorated", "N2-rename-combos", "N3-shared-none", "N3"],
-          "thorough": ["N1", "N2", "N2-three-output-producer", "N2-decorated", "N2-rename-combos", "N3-shared-none", "N3", "N3-decorated", "N4-single-output"]}
-CHUNK = {"N2-rename-combos": 60, "N3-shared-none": 20, "N2-three-output-producer": 8, "N1": 8, "N2": 16, "N2-decorated": 40, "N3": 40, "N3-decorated": 200, "N4-single-output": 30}
+STAGES = {"quick": ["N1", "N2", "N2-three-output-producer", "N2-decorated", "N2-rename-combos", "N2-special-names", "N3-shared-none", "N3"],
+          "thorough": ["N1", "N2", "N2-three-output-producer", "N2-decorated", "N2-rename-combos", "N2-special-names", "N3-shared-none", "N3", "N3-decorated", "N4-single-output"]}
+CHUNK = {"N2-special-names": 9, "N2-rename-combos": 60, "N3-shared-none": 20, "N2-three-output-producer": 8, "N1": 8, "N2": 16, "N2-decorated": 40, "N3": 40, "N3-decorated": 200, "N4-single-output": 30}
 
 
 def plan(tier, seed):
